@@ -1,2 +1,127 @@
+"""Bounded stand-ins for the wire properties (never counted as proved):
+ * conformance — the REAL nom parser vs. the Verus-verified reference parser on exhaustive small-scope inputs
+   (stands in for the assumed contract `ParsedComponent::parse == spec_component`, `greeting == spec_greeting`);
+ * search — random well-formed/mutated streams x segmentations x {blocking, async} against the oracle fold; also
+   the source of replayable failing inputs when Verus reports a violation without a counterexample."""
+import os, sys, json, re, shutil, fcntl, time, subprocess
+import runner as R
+import replay as RP
+
+CONF_PROPS_REF_GOOD = ['C03']
+_conf_built = {}
+
+
+def build_conf(scratch):
+    if scratch in _conf_built: return _conf_built[scratch]
+    work = os.path.join(scratch, 'conf')
+    os.makedirs(work, exist_ok=True)
+    repo = os.path.join(work, 'repo')
+    rc, out, err, _ = R.run(['rsync', '-a', '--delete', '--exclude', 'target', '--exclude', '.git', R.REPO + '/', repo + '/'])
+    if rc != 0: raise R.Undecided('conformance: snapshot failed')
+    shutil.copy(os.path.join(R.VERIF, 'conformance', 'vx_conf.rs'), os.path.join(repo, 'mpd_protocol', 'src', 'vx_conf.rs'))
+    os.makedirs(os.path.join(repo, 'mpd_protocol', 'examples'), exist_ok=True)
+    shutil.copy(os.path.join(R.VERIF, 'conformance', 'vx_conf_main.rs'), os.path.join(repo, 'mpd_protocol', 'examples', 'vx_conf_main.rs'))
+    lib = os.path.join(repo, 'mpd_protocol', 'src', 'lib.rs')
+    txt = open(lib).read()
+    if not re.search(r'^mod parser;', txt, re.M):
+        _conf_built[scratch] = (None, 'lost anchor: `mod parser;` not found in lib.rs')
+        return _conf_built[scratch]
+    txt = re.sub(r'^mod parser;', 'mod parser;\n#[doc(hidden)] pub mod vx_conf;', txt, count=1, flags=re.M)
+    open(lib, 'w').write(txt)
+    tgt = os.path.join(R.CACHE, 'conf-target')
+    os.makedirs(R.CACHE, exist_ok=True)
+    with open(os.path.join(R.CACHE, 'conf.lock'), 'w') as lk:
+        fcntl.flock(lk, fcntl.LOCK_EX)
+        rc, out, err, wall = R.run(['cargo', 'build', '--release', '--offline', '-p', 'mpd_protocol', '--example', 'vx_conf_main'], cwd=repo,
+                                   env={'CARGO_TARGET_DIR': tgt, 'VX_REFPARSER_DIR': os.path.join(R.VERIF, 'replay', 'src')}, timeout=1800)
+        if rc != 0:
+            _conf_built[scratch] = (None, err[-2500:])
+            return _conf_built[scratch]
+        exe = os.path.join(work, 'vx_conf_main')
+        shutil.copy(os.path.join(tgt, 'release', 'examples', 'vx_conf_main'), exe)
+    _conf_built[scratch] = (exe, '')
+    return _conf_built[scratch]
+
+
+def props_of_disagreement(line):
+    """line: '<component|greeting> <hex> ref=<X> real=<Y> | ...' -> properties whose assumed contract this refutes"""
+    m = re.match(r'(\w+) (\w*) ref=(\w+) real=(\w+)', line)
+    if not m: return ['C03']
+    which, hx, ref, real = m.groups()
+    if which == 'greeting':
+        p = ['C18']
+        if 'Inc' in (ref, real): p.append('C10')
+        return p
+    if ref == 'Good': p = ['C03'] + (['C02'] if real == 'Inc' else [])
+    elif ref == 'Bad': p = ['C09']
+    else: p = ['C02', 'C10', 'C03']          # decides on a proper prefix: depends on segmentation
+    return p
+
+
 def run(prop, tier, seed, scratch, root):
-    return {'function': 'parser::ParsedComponent::parse, parser::greeting', 'result': 'not-run (stand-in under construction)', 'cases': 0, 'label': 'bounded'}
+    exe, err = build_conf(scratch)
+    row = {'function': 'parser::ParsedComponent::parse, parser::greeting (nom; assumed contract == spec_component / spec_greeting)',
+           'engine': 'native exhaustive small-scope differential run against replay/src/refparser.rs (proved == spec by Verus, unit R)', 'label': 'bounded',
+           'violations': []}
+    if exe is None:
+        row['undecided'] = 'conformance harness does not build against the current tree: ' + err[-400:]
+        row['result'] = 'not-run'
+        return row
+    modes = ['corpus', 'alpha:6', 'bytes:3'] if tier != 'thorough' else ['corpus', 'alpha:7', 'bytes:3']
+    total = 0; nontriv = 0; dis = []; pan = []
+    for m in modes:
+        rc, out, e, wall = R.run([exe, m, '16'], timeout=3000)
+        try:
+            j = json.loads(out.strip().split('\n')[-1])
+        except Exception:
+            row['undecided'] = 'conformance harness crashed in mode %s: %s' % (m, (out + e)[-300:])
+            return row
+        total += j['cases']; nontriv += j['nontrivial']; dis += j['disagreements']; pan += j['panics']
+    row['bound'] = 'all inputs of <= %s symbols over the 24-symbol class alphabet; all byte strings of length <= 3; 22 corpus lines with every prefix and every single-symbol deletion/insertion/substitution' % ('7' if tier == 'thorough' else '6')
+    row['cases'] = total; row['distinct_nontrivial'] = nontriv
+    row['result'] = 'agree' if not dis and not pan else 'DISAGREE'
+    row['disagreements'] = dis[:10]; row['panics'] = pan[:10]
+    for d in dis[:40]:
+        ps = props_of_disagreement(d)
+        if prop in ps:
+            hx = d.split(' ')[1]
+            which = d.split(' ')[0]
+            stream = ('4f4b204d504420300a' + hx) if which == 'component' else hx     # "OK MPD 0\n" + input
+            rr = RP.run_bin('stream_case', scratch, [stream, '-'])
+            row['violations'].append({'props': ps, 'ob': 'C03.parser.conformance', 'fn': 'parser::' + ('ParsedComponent::parse' if which == 'component' else 'greeting'),
+                                      'message': 'the real nom parser disagrees with the verified reference parser (assumed contract refuted)', 'where': 'mpd_protocol/src/parser.rs',
+                                      'rendered': d, 'input': {'kind': which, 'hex': hx}, 'replayed': rr, 'replay_bin': 'stream_case', 'replay_args': [stream, '-']})
+            break
+    for d in pan[:5]:
+        if prop == 'C09':
+            hx = d.split(' ')[1]
+            row['violations'].append({'props': ['C09'], 'ob': 'C09.parser.panic', 'fn': 'parser', 'message': 'the real nom parser panics', 'where': 'mpd_protocol/src/parser.rs',
+                                      'rendered': d, 'input': {'hex': hx}})
+            break
+    return row
+
+
+def search(prop, tier, seed, scratch, root, cases=None):
+    """random differential search; returns (row, violations)"""
+    n = cases or (4000 if tier != 'thorough' else 60000)
+    rr = RP.run_bin('stream_search', scratch, [str(seed + 1), str(n)], timeout=1500)
+    row = {'function': 'Connection::{connect,receive}, AsyncConnection::{connect,receive} end to end (incl. the nom parser)',
+           'engine': 'native random differential search against the oracle fold (replay/src/bin/stream_search.rs)', 'label': 'bounded', 'cases': n, 'violations': []}
+    if not rr.get('ran'):
+        row['undecided'] = rr.get('reason', 'search did not run'); return row
+    try:
+        j = json.loads(rr['output'].strip().split('\n')[-1])
+    except Exception:
+        row['undecided'] = 'search output unreadable: ' + rr.get('output', '')[-200:] + rr.get('stderr', '')[-200:]; return row
+    if not rr['fails']:
+        row['result'] = 'no deviation'; row['distinct_nontrivial'] = j.get('distinct_streams', 0)
+        row['bound'] = '%d random streams (generator: frames, lists, ACKs, binary incl. >4 KiB, truncation/corruption) x random segmentations, seed %d' % (n, seed + 1)
+        return row
+    row['result'] = 'DEVIATION'
+    row['deviation'] = j
+    stream, cuts = j['stream_hex'], j.get('cuts') or '-'
+    rep = RP.run_bin('stream_case', scratch, [stream, cuts])
+    row['violations'].append({'props': j.get('props', []), 'ob': 'wire.search', 'fn': 'Connection/AsyncConnection', 'message': 'real connection deviates from the oracle',
+                              'where': 'mpd_protocol', 'rendered': json.dumps(j)[:3000], 'input': {'stream_hex': stream, 'cuts': cuts}, 'replayed': rep,
+                              'replay_bin': 'stream_case', 'replay_args': [stream, cuts]})
+    return row
